@@ -99,11 +99,25 @@ def op_form(op):
 def render_event(case, kind, who, d, form=0):
     a = addr(case, who)
     nm = dir_name(d, form)
+    # the optional fields of control-spec's HS_DESC line ([SP DescriptorID] [SP "REASON=" Reason] [SP "REPLICA="
+    # Replica] [SP "HSDIR_INDEX=" ..], AuthType) vary with the case's `decor` salt; none of them bears on the property
+    v = case.get('decor', 0) + 3 * d + who
+    auth = ('UNKNOWN', 'NO_AUTH', 'UNKNOWN', 'BASIC_AUTH')[v % 4] if case.get('decor') else 'UNKNOWN'
     if kind == 'UPLOAD':
-        return '650 HS_DESC UPLOAD %s UNKNOWN %s descid%d HSDIR_INDEX=AB%02d' % (a, nm, d, d)
+        if case.get('decor') and v % 3 == 1:
+            return '650 HS_DESC UPLOAD %s %s %s' % (a, auth, nm)
+        if case.get('decor') and v % 3 == 2:
+            return '650 HS_DESC UPLOAD %s %s %s descid%d REPLICA=%d' % (a, auth, nm, d, v % 2)
+        return '650 HS_DESC UPLOAD %s %s %s descid%d HSDIR_INDEX=AB%02d' % (a, auth, nm, d, d)
     if kind == 'UPLOADED':
-        return '650 HS_DESC UPLOADED %s UNKNOWN %s' % (a, nm)
-    return '650 HS_DESC FAILED %s UNKNOWN %s REASON=UPLOAD_REJECTED' % (a, nm)
+        if case.get('decor') and v % 2 == 1:
+            return '650 HS_DESC UPLOADED %s %s %s descid%d' % (a, auth, nm, d)
+        return '650 HS_DESC UPLOADED %s %s %s' % (a, auth, nm)
+    if not case.get('decor'):
+        return '650 HS_DESC FAILED %s UNKNOWN %s REASON=UPLOAD_REJECTED' % (a, nm)
+    return '650 HS_DESC FAILED %s %s %s%s' % (a, auth, nm, (' REASON=UPLOAD_REJECTED', ' REASON=UNEXPECTED',
+                                                            ' descid%d REASON=UNEXPECTED' % d, '',
+                                                            ' descid%d REASON=UPLOAD_REJECTED' % d)[v % 5])
 
 
 def with_names(ops, mode, salt=0):
@@ -531,7 +545,8 @@ class P(core.Prop):
             names = rng.choice(['short', 'long', 'long', 'long', 'mixed'])
             out.append({'svc': svc, 'ver': rng.choice([2, 3, 3]), 'await': rng.choice([None, False, True, True]),
                         'early': early, 'shared': rng.random() < 0.3, 'progress': rng.random() < 0.7,
-                        'ops': with_names(ops, names, rng.randrange(1000))})
+                        'ops': with_names(ops, names, rng.randrange(1000)),
+                        'decor': rng.choice([0, 0, 1, 2, 3, 4, 5, 6, 7, 8, 9, 10])})
         return out
 
     def shrink_candidates(self, case):
@@ -539,6 +554,8 @@ class P(core.Prop):
         ops = case['ops']
         for i in range(len(ops)):
             yield dict(case, ops=ops[:i] + ops[i + 1:])
+        if case.get('decor'):
+            yield dict(case, decor=0)
         if case['shared']:
             yield dict(case, shared=False)
         if case['progress']:
